@@ -193,6 +193,19 @@ def check_debug(case):
                     redo = d.methods[k](model, d.inputs[k])
                     require(_eq(redo, d.outputs[k]), "debug:record-not-truthful", "%s.%s: recorded output is not what the model returns on the recorded input" % (
                         type(model).__name__, k), facts)
+    # a deep copy of the instrumented pipeline is an instrumented pipeline of its own: what it is called with lands in ITS records and the
+    # first pipeline's records keep describing the first pipeline's last call
+    if methods and len(batches[0]) != len(batches[1]):
+        m0 = methods[0]
+        twin = copy.deepcopy(pipe)
+        out_p = getattr(pipe, m0)(batches[0])
+        out_t = getattr(twin, m0)(batches[1])
+        require(_eq(out_t, expected[(m0, 1)]), "debug:output-changed:" + m0 + ":copy", "a deep copy of the altered pipeline answers differently", facts)
+        td, pd_ = getattr(twin, "_debug", None), getattr(pipe, "_debug", None)
+        require(td is not None and m0 in td.inputs and _eq(td.inputs[m0], batches[1]) and _eq(td.outputs[m0], out_t), "debug:copy-does-not-record-its-own-call",
+                "after copy.deepcopy, the copy's root record does not hold the batch the copy was called with", facts)
+        require(_eq(pd_.inputs[m0], batches[0]) and _eq(pd_.outputs[m0], out_p), "debug:copy-writes-into-the-original-records",
+                "a call on the deep copy changed the records of the pipeline it was copied from", facts)
     # models below a ColumnTransformer: whatever is recorded must be truthful (usually nothing is)
     for _, model, _vs in _hp.enumerate_pipeline_models(pipe):
         d = getattr(model, "_debug", None)
